@@ -125,7 +125,7 @@ def plane(tier: str, rng: random.Random) -> List[Tuple[str, Any, Any]]:
         for d in (("VDict", []), ("VDict", [P(G.I(1), G.NONE)])):
             out += [("pred", ("PMinKeys", n), d), ("pred", ("PMaxKeys", n), d)]
     # counts and lengths beyond the small integers an interpreter keeps as shared objects
-    for n in (255, 256, 257, 300, 1000):
+    for n in (255, 256, 257, 300, 400):
         for ln in (n - 1, n, n + 1):
             xs_ = G.S("x" * ln)
             out += [("pred", ("PMinLength", n), xs_), ("pred", ("PMaxLength", n), xs_), ("pred", ("PExactLength", n), xs_)]
